@@ -101,7 +101,7 @@ class Report:
     def violation(self, key, replay, text):
         k = match_known(self.prop, key)
         if k is not None:
-            self.known.append((key, text))
+            self.known.append((k['key'], k.get('text', text)))
         else:
             self.violations.append((key, replay, text))
 
